@@ -35,6 +35,9 @@ pub enum Mode {
     LibSqlitePerThread,
     SocketMem,
     TwoProcesses,
+    /// as `TwoProcesses`, but the second server process starts on the directory while the first is
+    /// already under load (a rolling restart, a second front-end coming up)
+    SecondProcessJoins,
 }
 
 pub struct StressOut {
@@ -105,6 +108,54 @@ pub fn run_weighted(mode: Mode, threads: usize, ops_per_thread: usize, seed: u64
                 Err(e) => {
                     err = Some(e);
                     (Arc::new(|_, _, _| Resp::Error("no server".into())), None)
+                }
+            }
+        }
+        Mode::SecondProcessJoins => {
+            let dir = ScratchDir::new("stress2j");
+            let st: Option<Arc<dyn Storage>> = SqliteStorage::new(dir.path()).ok().map(|s| Arc::new(s) as Arc<dyn Storage>);
+            let second: Arc<Mutex<Option<(Proc, String)>>> = Arc::new(Mutex::new(None));
+            let mut first_addr = None;
+            if let (Some(bin), Some(p)) = (server_bin(), free_port()) {
+                let a = format!("127.0.0.1:{p}");
+                match Proc::start(&bin, &["--listen".into(), a.clone(), "--data-dir".into(), dir.path().to_string_lossy().to_string()], &[], &[a.clone()], Duration::from_secs(20)) {
+                    Ok(pr) => {
+                        keep.push(Box::new(pr));
+                        first_addr = Some(a);
+                    }
+                    Err(e) => err = Some(e),
+                }
+                // the second process is started by the first request of an odd thread's tenth
+                // operation, i.e. while the other threads keep the first process busy
+            } else {
+                err = Some("server binary not built".into());
+            }
+            let dirp = dir.path().to_path_buf();
+            keep.push(Box::new(dir));
+            keep.push(Box::new(second.clone()));
+            match first_addr {
+                None => {
+                    err = err.or(Some("could not start the first server".into()));
+                    (Arc::new(|_, _, _| Resp::Error("no server".into())), None)
+                }
+                Some(a0) => {
+                    let calls = Arc::new(std::sync::atomic::AtomicUsize::new(0));
+                    let e: Exec = Arc::new(move |t, c, r| {
+                        let n = calls.fetch_add(1, std::sync::atomic::Ordering::SeqCst);
+                        if n == 25 {
+                            if let (Some(bin), Some(p)) = (server_bin(), free_port()) {
+                                let a = format!("127.0.0.1:{p}");
+                                if let Ok(pr) = Proc::start(&bin, &["--listen".into(), a.clone(), "--data-dir".into(), dirp.to_string_lossy().to_string()], &[], &[a.clone()], Duration::from_secs(20)) {
+                                    *second.lock().unwrap() = Some((pr, a));
+                                }
+                            }
+                        }
+                        let addr = if t % 2 == 1 { second.lock().unwrap().as_ref().map(|(_, a)| a.clone()).unwrap_or_else(|| a0.clone()) } else { a0.clone() };
+                        let h = Subject::build_http(c, r);
+                        let resp = socket_request(&addr, &h, Framing::ContentLength, Duration::from_secs(30));
+                        Subject::decode_http(r, &resp)
+                    });
+                    (e, st)
                 }
             }
         }
